@@ -393,7 +393,139 @@ theorem src_linearization (A : Carrier F) (c0 : Nat) (progs : List (List (Call F
     (run A srcShape (init c0 progs) sched).cell = replay A c0 (run A srcShape (init c0 progs) sched).log :=
   linearization A src_rmw_shape c0 progs sched
 
+/-! ## round 2: `GaugeValue::update_value`, `Arc<T>` forwarding, `__into_f64`, bit-level IEEE carrier -/
+
+/-- **update_value_is_storage_update**: for every gauge value, every carrier and every cell content,
+    `update_value` applied to the value in the cell is exactly what the corresponding storage update
+    (`set`/`increment`/`decrement` on the `AtomicU64`) writes -/
+theorem update_value_is_storage_update (A : Carrier F) (gv : GaugeValue F) (c : Nat) :
+    A.toBits (gv.updateValue A (A.ofBits c)) = applyOp A gv.toOp c := by
+  cases gv <;> rfl
+
+theorem gApply_toOp (A : Carrier F) (gv : GaugeValue F) (x : F) : gApply A gv.toOp x = gv.updateValue A x := by
+  cases gv <;> rfl
+
+theorem foldr_update_value (A : Carrier F) (z : F) :
+    ∀ (log : List (Nat × Op F)) (vals : List (GaugeValue F)), log.map (·.2) = vals.map GaugeValue.toOp →
+      log.foldr (fun e x => gApply A e.2 x) z = vals.foldr (fun gv x => gv.updateValue A x) z
+  | [], [], _ => rfl
+  | [], _ :: _, h => by simp at h
+  | _ :: _, [], h => by simp at h
+  | e :: log, gv :: vals, h => by
+    simp only [List.map_cons, List.cons.injEq] at h
+    simp only [List.foldr_cons]
+    rw [foldr_update_value A z log vals h.2, h.1, gApply_toOp]
+
+/-- **update_value_replays_gauge**: an exporter that replays the gauge values (`vals`, newest first like the
+    log) in the order the updates took effect, with `update_value`, starting from the initial value, arrives
+    at exactly the value the storage holds — any threads, any schedule -/
+theorem update_value_replays_gauge (A : Carrier F) (hrt : ∀ x, A.ofBits (A.toBits x) = x) {sh : Shape} (h : AllRmw sh)
+    (c0 : Nat) (progs : List (List (Call F))) (hg : ∀ p ∈ progs, ∀ op ∈ effOps p, GaugeOp op) (sched : List Nat)
+    (vals : List (GaugeValue F))
+    (hv : (run A sh (init c0 progs) sched).log.map (·.2) = vals.map GaugeValue.toOp) :
+    A.ofBits (run A sh (init c0 progs) sched).cell = vals.foldr (fun gv x => gv.updateValue A x) (A.ofBits c0) := by
+  rw [(gauge_linear A hrt h c0 progs hg sched).1]
+  exact foldr_update_value A _ _ vals hv
+
+/-- **arc_forwards**: a `CounterFn`/`GaugeFn` behind any number of `Arc`s does exactly what the innermost
+    implementation does (`impl … for Arc<T>` forwards every method with the same argument) -/
+theorem arc_forwards {σ : Type} (inner : UpdFn σ F) (k : Nat) : (UpdFn.arcN inner k).apply = inner.apply := by
+  induction k with
+  | zero => rfl
+  | succ k ih => exact ih
+
+/-- … in particular a handle on `Arc<…Arc<AtomicU64>…>` applies the storage update itself -/
+theorem nested_arc_is_cell_update (A : Carrier F) (k : Nat) (op : Op F) (c : Nat) :
+    (UpdFn.arcN (cellFn A) k).apply op c = applyOp A op c := by
+  rw [arc_forwards]; rfl
+
+/-- `__into_f64` is `into_f64` -/
+theorem dunder_into_f64_is_into_f64 (a : Arg) : dunderIntoF64Bits a = intoF64Bits a := rfl
+
+/-- the bit-level carrier has `from_bits (to_bits x) = x` (both are the identity) -/
+theorem ieee_roundtrip (x : Nat) : ieeeCarrier.ofBits (ieeeCarrier.toBits x) = x := rfl
+
+/-- **gauge_linear_ieee**: `gauge_linear` with IEEE-754 addition and subtraction on the bits themselves (rounding,
+    signed zeros, subnormals, overflow, NaN/∞ included) — no hypothesis on the arithmetic is left -/
+theorem gauge_linear_ieee {sh : Shape} (h : AllRmw sh) (c0 : Nat)
+    (progs : List (List (Call Nat))) (hg : ∀ p ∈ progs, ∀ op ∈ effOps p, GaugeOp op) (sched : List Nat) :
+    (run ieeeCarrier sh (init c0 progs) sched).cell
+      = (run ieeeCarrier sh (init c0 progs) sched).log.foldr (fun e x => gApply ieeeCarrier e.2 x) c0
+    ∧ (∀ tid p, progs[tid]? = some p → ∃ t, (run ieeeCarrier sh (init c0 progs) sched).threads[tid]? = some t
+          ∧ effOps p = (proj tid (run ieeeCarrier sh (init c0 progs) sched).log).reverse ++ effOps t.prog)
+    ∧ (run ieeeCarrier sh (init c0 progs) sched).log.length + pendingLen (run ieeeCarrier sh (init c0 progs) sched)
+        = (progs.map (fun p => (effOps p).length)).sum :=
+  gauge_linear ieeeCarrier ieee_roundtrip h c0 progs hg sched
+
+/-- every magnitude below 2^53 (all subnormals and the first binade) is representable: no rounding -/
+theorem roundMag_small (s : Nat) (h : s < 2 ^ 53) : roundMag s = s := by
+  simp [roundMag, h]
+
+/-- a NaN operand makes the sum a NaN, whatever the other operand -/
+theorem f64Add_nan (a b : Nat) (h : f64IsNaN a = true ∨ f64IsNaN b = true) : f64IsNaN (f64Add a b) = true := by
+  have hd : f64IsNaN defaultNaN = true := by decide
+  unfold f64Add
+  rcases h with h | h <;> simp [h, hd]
+
+/-- IEEE addition on concrete operands (kernel evaluation): 0.1 + 0.2 = 0.30000000000000004; −0 + −0 = −0;
+    −0 + +0 = +0; x − x = +0; 2^53 + 1 = 2^53 (tie to even); 2^53 + 3 = 2^53 + 4; MAX + MAX = +∞;
+    ∞ − ∞ = NaN; MIN_POSITIVE − 5e-324 = the largest subnormal; 5e-324 + 5e-324 = 1e-323 -/
+theorem f64Add_witnesses :
+    f64Add 0x3fb999999999999a 0x3fc999999999999a = 0x3fd3333333333334
+    ∧ f64Add 0x8000000000000000 0x8000000000000000 = 0x8000000000000000
+    ∧ f64Add 0x8000000000000000 0 = 0
+    ∧ f64Sub 0x3fb999999999999a 0x3fb999999999999a = 0
+    ∧ f64Add 0x4340000000000000 0x3ff0000000000000 = 0x4340000000000000
+    ∧ f64Add 0x4340000000000000 0x4008000000000000 = 0x4340000000000002
+    ∧ f64Add 0x7fefffffffffffff 0x7fefffffffffffff = 0x7ff0000000000000
+    ∧ f64IsNaN (f64Sub 0x7ff0000000000000 0x7ff0000000000000) = true
+    ∧ f64Sub 0x0010000000000000 1 = 0x000fffffffffffff
+    ∧ f64Add 1 1 = 2 := by decide +kernel
+
+/-- **split_abs_loses_absolute**: if `CounterFn::absolute` were `load; store(max(loaded, v))` instead of one
+    `fetch_max`, an `absolute(50)` that loaded before another thread's `absolute(100)` took effect lowers the
+    counter to 50 — below an absolute value given — although nothing wrapped: `counter_abs` fails on the split
+    machine (the class of seed C04-3: a check-then-act `absolute`) -/
+theorem split_abs_loses_absolute :
+    let s := run natCarrier { allRmw with abs := false } (init 0 [[⟨some (), .abs 100⟩], [⟨some (), .abs 50⟩]]) [1, 0, 0, 1]
+    s.cell = 50 ∧ s.wrapped = false ∧ s.log.length = 2 := by decide +kernel
+
+/-- obligation: the five update functions of atomics.rs are, in full, the single calls the model takes them for
+    (nothing before, after or around the call: no shadowed `value`, no guard, no second access) -/
+theorem src_update_bodies_exact :
+    Generated.atomics_update_bodies =
+      [("counter_increment", "{ let _ = self.fetch_add(value, Ordering::_); }"),
+       ("counter_absolute", "{ let _ = self.fetch_max(value, Ordering::_); }"),
+       ("gauge_increment", "{ loop { let result = self.fetch_update(Ordering::_, Ordering::_, |curr| { let input = f64::from_bits(curr); let output = input + value; Some(output.to_bits()) }); if result.is_ok() { break; } } }"),
+       ("gauge_decrement", "{ loop { let result = self.fetch_update(Ordering::_, Ordering::_, |curr| { let input = f64::from_bits(curr); let output = input - value; Some(output.to_bits()) }); if result.is_ok() { break; } } }"),
+       ("gauge_set", "{ let _ = self.swap(value.to_bits(), Ordering::_); }")] := by decide +kernel
+
+/-- obligation: the arms of `GaugeValue::update_value` are the model's (`GaugeValue.updateValue`) -/
+theorem src_update_value_arms : Generated.common_update_value_arms = updateValueArms := by decide
+
+/-- obligation: `__into_f64(value)` is `value.into_f64()` -/
+theorem src_dunder_into_f64 : Generated.common_dunder_into_f64_body = "value.into_f64()" := by decide
+
+/-- obligation: every method of `impl CounterFn/GaugeFn/HistogramFn for Arc<T>` forwards to the same method of
+    `T` with the same argument (`UpdFn.arc`, `HistFn.arc`) -/
+theorem src_arc_impls_forward : Generated.handles_arc_forward_bodies = arcForwardTable := by decide
+
+/-- obligation: `from_arc(a)` is `Self { inner: Some(a) }` and `From<Arc<T>>` is `from_arc` (`Handle.fromArc`) -/
+theorem src_ctor_bodies : Generated.handles_ctor_bodies = ctorTable := by decide
+
 /-! ## non-vacuity -/
+
+/-- update_value on the IEEE carrier: −0.0 incremented by −0.0 stays −0.0, by +0.0 becomes +0.0; Absolute ignores the input -/
+example : (GaugeValue.increment 0x8000000000000000).updateValue ieeeCarrier 0x8000000000000000 = 0x8000000000000000
+    ∧ (GaugeValue.increment 0).updateValue ieeeCarrier 0x8000000000000000 = 0
+    ∧ (GaugeValue.decrement 0x3ff0000000000000).updateValue ieeeCarrier 0x3ff8000000000000 = 0x3fe0000000000000
+    ∧ (GaugeValue.absolute 7).updateValue ieeeCarrier 0x3ff8000000000000 = 7 := by decide +kernel
+
+/-- two threads on the IEEE carrier: 0.1 then 0.2 (another clone) then −0.30000000000000004: exactly +0.0 -/
+example :
+    let s := run ieeeCarrier allRmw
+      (init 0 [[⟨some (), .gInc 0x3fb999999999999a⟩, ⟨some (), .gDec 0x3fd3333333333334⟩], [⟨some (), .gInc 0x3fc999999999999a⟩]]) [0, 1, 0]
+    s.cell = 0 ∧ s.log.length = 3 := by decide +kernel
 
 /-- three clones on three threads, increments that wrap around 2^64, an interleaved schedule -/
 example :
